@@ -135,7 +135,9 @@ class GlomError(Exception):
         # this approach to wrapping errors works for exceptions
         # defined in pure-python as well as C
         exc_type = type(exc)
-        bases = (GlomError,) if issubclass(GlomError, exc_type) else (exc_type, GlomError)
+        # GlomError goes first: its __str__ (the one with the target-spec trace)
+        # must win over a __str__ defined by the wrapped class (KeyError, OSError, ...)
+        bases = (GlomError,) if issubclass(GlomError, exc_type) else (GlomError, exc_type)
         exc_wrapper_type = type(f"GlomError.wrap({exc_type.__name__})", bases, {})
         try:
             wrapper = exc_wrapper_type(*exc.args)
